@@ -13,6 +13,7 @@ struct GenOpts {
   int qbits_max = 16; double big = 0;     // big > 0: VQ magnitudes scaled up (decoded values far outside +-1)
   bool simple = false;                    // small setups (vorbisfile stream source): few books, no huge tables
   int force_bs0log = -1, force_bs1log = -1;
+  int huge_book_log = 0;                  // > 0: the first codebook is an ordered book with 2^k entries, all of length k (decoder table limits)
 };
 
 struct SetupGen {
@@ -171,6 +172,7 @@ struct SetupGen {
     s.rate = rates[t.weighted({6, 3, 3, 2, 2, 1, 1, 1, 1, 1, 1, 1})];
     s.br_nominal = (int32_t)t.below(500000); s.br_upper = t.chance(1, 4) ? (int32_t)t.below(900000) : 0; s.br_lower = t.chance(1, 4) ? (int32_t)t.below(90000) : 0;
     int half1 = s.bs(1) / 2;
+    if (o.huge_book_log > 0) { Book hb; hb.dim = 1; hb.entries = 1 << o.huge_book_log; hb.ordered = true; hb.len.assign(hb.entries, (uint8_t)o.huge_book_log); hb.lookup = 0; hb.used.clear(); s.books.push_back(hb); F("book: huge ordered"); }
     int nmap = 1 + t.weighted({6, 2, 1}); if (o.simple) nmap = 1;
     for (int m = 0; m < nmap; m++) {
       Mapping mp; mp.submaps = 1 + t.weighted({6, 3, 1, 1}); if (t.chance(1, 40)) mp.submaps = 16; if (o.simple && mp.submaps > 2) mp.submaps = 2;
